@@ -211,9 +211,61 @@ def execute_successor(ex: Execution, old_limit: int, new_limit: int) -> tuple[An
         return obs, v
 
 
+def execute_nested(ex: Execution, limit: int, n_children: int) -> tuple[Any, list[Any]]:
+    """a run whose step starts ``n_children`` further runs of ITS OWN workflow instance and goes on (it does not wait for them): the
+    children are runs of the instance like any other - with the parent they never exceed the limit, and each of them executes"""
+    with EngineExec(ex, RunConfig()) as e:
+        rt = MonRuntime(BasicRuntime())
+        handlers: dict[str, Any] = {}
+
+        async def start(self, ctx, ev, inv):  # noqa: ANN001
+            tag = ev.get("tag")
+            self._active.append(tag)
+            self._peak = max(self._peak, len(self._active))
+            self._order.append(tag)
+            try:
+                if tag == "root":
+                    for i in range(n_children):
+                        handlers[f"child{i}"] = self.run(run_id=f"run-child{i}", tag=f"child{i}")
+                await gate(f"run{tag}")
+            finally:
+                self._active.remove(tag)
+            return StopEvent(result=tag)
+
+        cls = make_workflow("Nested", [make_step("start", [StartEvent], [StopEvent], start)])
+        wf = cls(timeout=None, runtime=rt, num_concurrent_runs=limit)
+        wf._active, wf._peak, wf._order = [], 0, []
+        handlers["root"] = wf.run(run_id="run-root", tag="root")
+        expected = {"root"} | {f"child{i}" for i in range(n_children)}
+        e.cfg.stop_when = lambda hh: all(t in handlers and handlers[t].is_done() for t in expected)
+        v: list[Any] = []
+        w = {"limit": limit, "hard_cancel": False, "runs_started_from_a_step_of_the_same_instance": True}
+
+        def on_q(hh: Any) -> None:
+            if len(wf._active) > limit:
+                v.append(("limit_exceeded", w, f"{len(wf._active)} runs of one instance execute steps ({sorted(wf._active)}), limit {limit}"))
+
+        e.cfg.on_quiescent.append(on_q)
+        e.drive()
+        if wf._peak > limit:
+            v.append(("limit_exceeded", w, f"peak {wf._peak} concurrent runs, limit {limit}"))
+        for t in sorted(expected):
+            hd = handlers.get(t)
+            out = task_outcome(hd._result_task) if hd is not None else ("never started", None)
+            if out[0] != "result":
+                v.append(("run_never_executes", w, f"run {t} ended {out} (stuck={e.stuck}); order {wf._order}"))
+        gc.collect(0)
+        seen = set()
+        v = [x for x in v if not ((x[0], x[2][:40]) in seen or seen.add((x[0], x[2][:40])))]
+        return {"order": wf._order, "peak": wf._peak, "_metrics": {"max_concurrency": wf._peak}}, v
+
+
 def programs(tier: str) -> list[Program]:
     q = tier == "quick"
     ps = []
+    for limit, n in (((2, 2), (2, 3)) if q else ((2, 2), (2, 3), (3, 4), (1, 2))):
+        ps.append(Program(f"nested_runs(limit={limit},children={n})", {"limit": limit, "children": n, "nested": True},
+                          (lambda ex, limit=limit, n=n: execute_nested(ex, limit, n)), max_dev=(4 if q else 6), min_concurrency=min(limit, n)))
     for n in ((2, 3) if q else (2, 3, 4)):
         for limit in ((1, 2) if q else (1, 2, 3)):
             if limit > n:
